@@ -40,4 +40,6 @@ def queries(tier, prop='C07'):
         for us in (1, 2, 4):
             for e in MIXED:
                 add(e, {'TSEL': 0, 'USEL': us})
+    if ub and tier == 'quick':   # C02 quick: the non-trivial instantiation and optional<int&> only; C02 thorough runs the whole grid with the UB build
+        out = [q for q in out if q['cfg']['TSEL'] == 1 or q['entry'][2:] in REF]
     return out
